@@ -331,8 +331,20 @@ def attachConv (s : St) (n : String) (c : String) : St × Bool :=
       let s := setTag s n { t with convs := t.convs ++ [c] }
       ({ s with toconv := sins c (union ((sget s.toconv c).getD []) t.mat) s.toconv }, true)
 
+/-- `converterOutputDropped`: every tag that looks at payload becomes pending for all streams (a data filter
+    also matches on cached converter output, which is gone), then the uncertainty sweep, the during-job mask
+    and `startTaggingJobIfNeeded` -/
+def outputDropped (s : St) (choice : Option String) : St :=
+  if s.tags.any (fun nt => (nt.2.mfeat ||| nt.2.sfeat) &&& fData != 0) then
+    let s := { s with tags := s.tags.map fun (n, t) =>
+      if (t.mfeat ||| t.sfeat) &&& fData != 0 then (n, { t with unc := rangeSet s.all }) else (n, t) }
+    let s := inherit s
+    let s := invalidatedDuringTaggingJob s (rangeSet s.all)
+    startTagging s choice
+  else s
+
 /-- `detachConverterFromTag` -/
-def detachConv (s : St) (n : String) (c : String) : St :=
+def detachConv (s : St) (n : String) (c : String) (choice : Option String := none) : St :=
   match sget s.tags n with
   | none => s
   | some t =>
@@ -340,9 +352,9 @@ def detachConv (s : St) (n : String) (c : String) : St :=
     let s := setTag s n t'
     let others := s.tags.foldl (fun acc (n', t2) =>
       if n' != n && t2.convs.contains c then union acc t2.mat else acc) ([] : IdSet)
-    let only := diff t'.mat others
-    let s := { s with toconv := sins c (diff ((sget s.toconv c).getD []) only) s.toconv }
-    if others.isEmpty then { s with cached := sins c [] s.cached } else s
+    -- "only keep streams queued that the other tags still need"
+    let s := { s with toconv := sins c (inter ((sget s.toconv c).getD []) others) s.toconv }
+    if others.isEmpty then outputDropped { s with cached := sins c [] s.cached } choice else s
 
 def isPlainIdList (d : String) : Bool :=
   d.startsWith "id:" &&
@@ -567,7 +579,7 @@ def step (s : St) (e : Ev) (st : Started) : St × Res :=
       let attachable := !(t.mfeat &&& fData ≠ 0 || t.sfeat &&& fData ≠ 0 || !t.mainT.isEmpty || !t.subT.isEmpty)
       if convs.any (fun c => !t.convs.contains c && (!s.convs.contains c || !attachable)) then (s, .err) else
       -- detach deselected converters
-      let s := (t.convs.filter (fun c => !convs.contains c)).foldl (fun s c => detachConv s name c) s
+      let s := (t.convs.filter (fun c => !convs.contains c)).foldl (fun s c => detachConv s name c st.tag) s
       -- attach new ones (the selection was validated above, so attaching cannot fail)
       let cur := ((sget s.tags name).map (·.convs)).getD []
       let s := (convs.filter (fun c => !cur.contains c)).foldl (fun s c => (attachConv s name c).1) s
@@ -600,7 +612,7 @@ def step (s : St) (e : Ev) (st : Started) : St × Res :=
     | some t =>
       if !t.refBy.isEmpty then (s, .err)
       else
-        let s := t.convs.foldl (fun s c => detachConv s name c) s
+        let s := t.convs.foldl (fun s c => detachConv s name c st.tag) s
         let s := { s with tags := sdel s.tags name }
         let s := t.refs.foldl (fun s r => delRefBy s r name) s
         (s, .ok)
